@@ -35,7 +35,8 @@ CLAIM = dict(
     "(over R for all modes; also on the exact Q model of DarsiaModel.Transport). Proved by a checker "
     "(exact arithmetic in Q(sqrt d), symmetric pairing, permutation of the product grid) shown sound once over the reals "
     "and evaluated by the kernel per table.",
-    note="Rule.toUnitCell (the map of gauss_reference_cell) is hand-written in the model and tied numerically (4e-16) on every accepted pair; "
+    note="oracle = the stated clauses on the rules only (n = points per direction taken from the returned point count); the order<->points convention, "
+    "the 'max' alias and every transport_density clause are ties of the model (marks, never failing inputs of C15); Rule.toUnitCell (the map of gauss_reference_cell) is hand-written in the model and tied numerically (4e-16) on every accepted pair; "
     "max_alias, l1_obligation, rejected_pairs_raise, table/corner_obligations are tie checks on generated tables; transport_density itself (face_to_cell, norms, the loop over the rule; weighted=False, the default weighted=True without and with a "
     "scalar weight image) is tied numerically: real solver objects vs the sum over the model's rule, 1e-13; if the source leaves the "
     "accepted AST subset the committed table is used and only validated numerically (recorded in the evidence); numpy evaluates the literal expressions in floating point (validated against the symbolic values to 1e-15 on every "
@@ -608,6 +609,16 @@ def consumer(ctx, d):
         ctx.mark("TIE-BROKEN", {"consumer": f"cannot import darsia.measure.wasserstein: {e}"})
         return
     rng = np.random.default_rng(ctx.rng.randrange(2**31))
+
+    class _Tie:
+        """C15's statement is about the quadrature rules; transport_density belongs to another module. Everything below is the tie of
+        the model's `l1Rule` to that consumer: a difference is a mark (CORR-BROKEN), never a claimed failing input of C15."""
+        @staticmethod
+        def fail(sig_, what, replay):
+            ctx.mark("CORR-BROKEN", {"correspondence": "transport_density-vs-model-rule", "clause": sig_, "what": what, **{k: v for k, v in replay.items() if k in ("call", "cell", "density", "norm_mean_flux", "required", "relative_difference")}})
+            ctx.cov.setdefault("consumer_observations", []).append(sig_)
+
+    tie = _Tie
     # single-voxel axes (2-D data embedded in 3-D, strips) are forced: there the flux has no component along that axis
     shapes = {1: [(4,), (1,)], 2: [(3, 3), (3, 2), (1, 4), (3, 1)], 3: [(3, 3, 3), (3, 4, 1), (1, 3, 1)]}
     if ctx.big:
@@ -631,19 +642,19 @@ def consumer(ctx, d):
                 solver = call(lambda: klass(d.generate_grid(im), None, opts))
                 ctx.count(("consumer", klass.__name__, mode, dim, shape))
                 if isinstance(solver, Raised):
-                    ctx.fail(f"C15:transport_density({mode},dim={dim}):construct", f"solver object cannot be built: {solver!r}", {"call": ["consumer", mode, dim, list(shape)]})
+                    tie.fail(f"C15:transport_density({mode},dim={dim}):construct", f"solver object cannot be built: {solver!r}", {"call": ["consumer", mode, dim, list(shape)]})
                     continue
                 grid = solver.grid
                 flux = rng.integers(-8, 9, grid.num_faces).astype(float) / 4.0
                 td = call(solver.transport_density, flux.copy(), False, False)
                 if isinstance(td, Raised) or np.asarray(td).shape != tuple(shape):
-                    ctx.fail(f"C15:transport_density({mode},dim={dim}):raises", f"transport_density: {td!r}"[:200], {"call": ["consumer", mode, dim, list(shape)], "flux": flux.tolist()})
+                    tie.fail(f"C15:transport_density({mode},dim={dim}):raises", f"transport_density: {td!r}"[:200], {"call": ["consumer", mode, dim, list(shape)], "flux": flux.tolist()})
                     continue
                 centre = np.linalg.norm(d.face_to_cell(grid, flux), 2, axis=-1)
                 n += 1
                 if not np.all(centre <= td + 1e-12 * max(1.0, float(np.max(td)))):
                     c = int(np.argmax(centre - td))
-                    ctx.fail(f"C15:transport_density({mode},dim={dim}):below-mean-flux", "transport density of a cell is smaller than the norm of its mean (centre) flux: "
+                    tie.fail(f"C15:transport_density({mode},dim={dim}):below-mean-flux", "transport density of a cell is smaller than the norm of its mean (centre) flux: "
                              "the rule is not exact for linears or has a negative weight",
                              {"call": ["consumer", mode, dim, list(shape)], "flux": flux.tolist(), "cell": c, "density": float(td.ravel()[c]), "norm_mean_flux": float(centre.ravel()[c])})
                 # a flux that is constant inside a cell (same value on all faces of an axis; interior cells): the weights sum to 1,
@@ -657,7 +668,7 @@ def consumer(ctx, d):
                     inner = tuple(slice(1, -1) if s_ >= 3 else slice(None) for s_ in shape)
                     fa = np.array([fa[a] if shape[a] >= 3 else 0.0 for a in range(dim)])  # no faces across a single-voxel axis
                     if isinstance(tdc, Raised) or not np.allclose(np.asarray(tdc)[inner], np.linalg.norm(fa), rtol=0, atol=1e-13 * max(1.0, np.linalg.norm(fa))):
-                        ctx.fail(f"C15:transport_density({mode},dim={dim}):constant-flux", "a flux that is constant in a cell must give density = its norm (weights sum to 1)",
+                        tie.fail(f"C15:transport_density({mode},dim={dim}):constant-flux", "a flux that is constant in a cell must give density = its norm (weights sum to 1)",
                                  {"call": ["consumer", mode, dim, list(shape)], "face_flux_per_axis": fa.tolist(), "required": float(np.linalg.norm(fa)),
                                   "observed": repr(tdc)[:200] if isinstance(tdc, Raised) else np.asarray(tdc)[inner].ravel().tolist()[:5]})
                 # the statement of the consumer itself ("the modes merely differ in the integration rule"): the density is the quadrature of
@@ -675,7 +686,7 @@ def consumer(ctx, d):
                         ei = float(np.max(np.abs(refi - td))) / max(1.0, float(np.max(np.abs(td))))
                         if not ei <= 1e-12:
                             cidx = int(np.argmax(np.abs(refi - td)))
-                            ctx.fail(f"C15:transport_density({mode},dim={dim}):not-the-quadrature-of-its-rule",
+                            tie.fail(f"C15:transport_density({mode},dim={dim}):not-the-quadrature-of-its-rule",
                                      "transport_density differs from the sum over the rule its L1 mode selects of weight * ||face_to_cell(flux, point)|| "
                                      "(the rule in effect is not the proved one: other weights / points)",
                                      {"call": ["consumer", mode, dim, list(shape)], "flux": flux.tolist(), "cell": cidx, "density": float(np.asarray(td).ravel()[cidx]),
@@ -712,7 +723,7 @@ def consumer(ctx, d):
                     centre_w = np.linalg.norm(d.face_to_cell(grid, flux) * wimg[..., None], 2, axis=-1)
                     if not np.all(centre_w <= tdw + 1e-12 * max(1.0, float(np.max(tdw)))):
                         c = int(np.argmax(centre_w - tdw))
-                        ctx.fail(f"C15:transport_density({mode},dim={dim},weighted):below-mean-flux", "weighted transport density of a cell is smaller than the norm of its weighted mean flux",
+                        tie.fail(f"C15:transport_density({mode},dim={dim},weighted):below-mean-flux", "weighted transport density of a cell is smaller than the norm of its weighted mean flux",
                                  {"call": ["consumer", mode, dim, list(shape)], "flux": flux.tolist(), "weight": wimg.tolist(), "cell": c,
                                   "density": float(np.asarray(tdw).ravel()[c]), "norm_mean_flux": float(centre_w.ravel()[c])})
                 tot = call(solver.l1_dissipation, flux.copy())
@@ -742,9 +753,10 @@ def check_rule(kind, dim, order, r):
     if kind == "corners":
         n, lo, vol, m = 2, 0.0, 1.0, 1
     else:
-        n = order + 1
+        # n = points per direction, from what is returned (the statement does not tie n to the order argument)
+        n = int(round(len(pts) ** (1.0 / dim))) if pts else 0
         lo, vol = (-1.0, 2.0**dim) if kind == "gauss" else (0.0, 1.0)
-        m = 2 * n - 1
+        m = max(2 * n - 1, 0)
     first_bad = None
     arr = np.array(pts[: min(len(pts), len(wts))], dtype=float).reshape(-1, len(pts[0]) if pts else dim)
     w = np.array(wts[: arr.shape[0]], dtype=float)
@@ -763,7 +775,7 @@ def check_rule(kind, dim, order, r):
     if any(len(p) != dim for p in pts):
         return ("point-dimension", "points do not have `dim` coordinates", {})
     if len(pts) != n**dim:
-        return (f"npoints={len(pts)}!={n}^{dim}", "number of points is not n^dim", {"points": len(pts)})
+        return (f"npoints={len(pts)}-not-a-{dim}th-power", "number of points is not n^dim for any n", {"points": len(pts)})
     if not all(x > 0 for x in wts):
         return ("nonpositive-weight", "a weight is not positive", {"weights": wts})
     if first_bad is not None:
@@ -785,18 +797,15 @@ def oracle(ctx, d, wide=False):
             r = impl_rule(q.gauss, dim, o)
             if isinstance(r, Raised):
                 ctx.count(("gauss-raises", dim, o), nontrivial=False)
-                if o == "max":
-                    ctx.fail(f"C15:gauss(dim={dim},order=max):raises", f"default order 'max' raises {r}", {"call": ["gauss", dim, "max"], "observed": repr(r)})
+                if o == "max" and any(a == dim for a, _ in accepted):
+                    ctx.mark("TIE-BROKEN", {"correspondence": "max-alias", "why": f"gauss({dim}, 'max') raises {r!r} although numbered orders are accepted"})
                 continue
             accepted.append((dim, o))
             oo = o
-            if o == "max":  # nominal n of the alias: the order whose table it returns
-                cands = [k for k in orders[:-1] if not isinstance(impl_rule(q.gauss, dim, k), Raised)
-                         and impl_rule(q.gauss, dim, k) == r]
-                if not cands:
-                    ctx.fail(f"C15:gauss(dim={dim},order=max):alias", "'max' does not return one of the numbered tables", {"call": ["gauss", dim, "max"]})
-                    continue
-                oo = cands[-1]
+            if o != "max" and len(r[0]) != (o + 1) ** dim:
+                # the model's convention (order k <-> k+1 points per direction) is a tie, not part of the statement
+                ctx.mark("TIE-BROKEN", {"correspondence": "order-vs-points", "call": ["gauss", dim, o], "points": len(r[0]), "model": (o + 1) ** dim})
+            oo = max(int(round(len(r[0]) ** (1.0 / dim))) - 1, 0)
             for kind, fn in (("gauss", q.gauss), ("cell", q.gauss_reference_cell)):
                 rr = r if kind == "gauss" else impl_rule(fn, dim, o)
                 fname = "gauss" if kind == "gauss" else "gauss_reference_cell"
